@@ -1323,6 +1323,10 @@ func genReqsPlain(r *rand.Rand, di int, d *gen.Param, full bool) []Req {
 		out = append(out, Req{D: di, Texts: []mon.Q{mon.Q(a), mon.Q(b)}, HeaderKey: hk()})
 	}
 	out = append(out, Req{D: di, Texts: []mon.Q{mon.Q(pool[0]), ""}, HeaderKey: hk()})
+	// an empty occurrence first: the last one still counts (and is still validated)
+	for i := 0; i < 3; i++ {
+		out = append(out, Req{D: di, Texts: []mon.Q{"", mon.Q(pool[r.Intn(len(pool))])}, HeaderKey: hk()})
+	}
 	return out
 }
 
